@@ -112,7 +112,7 @@ is_Opaque = Val.is_OpaqueV
 
 # opaque kinds (non-plain host-level objects a stub may hand back)
 OPAQUE_KINDS = ['view', 'iterator', 'match', 'module', 'boundmethod', 'instance', 'frame',
-                'code', 'path', 'lexer', 'parser', 'generator', 'other']
+                'code', 'path', 'lexer', 'parser', 'generator', 'other', 'pattern']
 OK = {k: i for i, k in enumerate(OPAQUE_KINDS)}
 
 
